@@ -752,17 +752,14 @@ pub fn fen_text(p: &Pos) -> ([u8; 96], usize) {
     (b, n)
 }
 
-/// The return contract of a fail-hard-low / fail-soft-high alpha-beta node whose true
-/// (unpruned) value is `v`, asked with the window (alpha, beta): exact inside the window,
-/// `alpha` when `v <= alpha`, and anything in `[beta, v]` when `v >= beta`.
+/// The return contract of this engine's alpha-beta flavour (fail-hard low, fail-soft or
+/// fail-hard high) for a node whose true (unpruned) value is `v`, asked with alpha <= beta:
+///   never below alpha;  v <= alpha  ->  alpha;   alpha < v < beta  ->  v;
+///   v >= beta  ->  something in [beta, v] (a lower bound that still causes the cut-off).
+/// Stated so that it is inductive: a node whose children obey it, obeys it.
 pub fn ab_contract(v: i16, alpha: i16, beta: i16, r: i16) -> bool {
-    if v <= alpha {
-        r == alpha
-    } else if v >= beta {
-        r >= beta && r <= v
-    } else {
-        r == v
-    }
+    let hi = if v > alpha { v } else { alpha };
+    r >= alpha && r <= hi && (v >= beta || r == hi) && (v < beta || r >= beta)
 }
 
 // ---------------------------------------------------------------------------------------------
